@@ -46,8 +46,8 @@ PERTURB = ("echo", "id+1", "id-1", "id0", "previd", "foreign", "id+1/genErr", "i
            # of tooBig / genErr) or one beyond the list, for another request
            "id+1/tooBig-index0", "id-1/genErr-index9", "foreign/noSuchName-index0",
            # error-status without a class of its own, for another request
-           "id+1/status19", "id+2^31/status1000", "id+2^31", "wrongcomm", "emptycomm", "otherversion", "wrongcomm/noSuchName", "prefixcomm", "longercomm")
-V3_PERTURB = PERTURB[:17]
+           "id+1/status19", "id+2^31/status1000", "id+2^31", "id0/noSuchName", "id0/tooBig-index0", "wrongcomm", "emptycomm", "otherversion", "wrongcomm/noSuchName", "prefixcomm", "longercomm")
+V3_PERTURB = PERTURB[:19]
 
 
 def creds(version):
@@ -157,6 +157,14 @@ def make_run(opname, version):
                 resp["varbinds"] = list(req["varbinds"])
             elif kind == "id+2^31":
                 resp["request_id"] = sent_id + 2**31
+            elif kind == "id0/noSuchName":
+                resp["request_id"] = 0
+                resp["es"], resp["ei"] = 2, 1
+                resp["varbinds"] = list(req["varbinds"])
+            elif kind == "id0/tooBig-index0":
+                resp["request_id"] = 0
+                resp["es"], resp["ei"] = 1, 0
+                resp["varbinds"] = []
             elif kind == "prefixcomm":
                 resp["community"] = b"publi"
             elif kind == "longercomm":
